@@ -45,6 +45,29 @@ func init() {
 		}
 		c.Case("codectx", hx(in[0]), hx(in[1]), hx(in[2]), r.outcome, hx(r.out), sp)
 	})
+	// codectx_hist <template text> <names: pre-executions and the judged member, separated by 0x01> <data wire> <markers>:
+	// as codectx, on ONE set: the earlier members are executed first (their results are ignored), then the judged one
+	reg("codectx_hist", 4, func(c *caseWriter, in []string) {
+		r := runTemplate(in[0], in[1], dataFromWire(in[2]), false)
+		var spans []string
+		if in[3] != "" {
+			for _, m := range strings.Split(in[3], ",") {
+				for off := 0; ; {
+					i := strings.Index(r.out[off:], m)
+					if i < 0 {
+						break
+					}
+					spans = append(spans, fmt.Sprintf("%d:%d", off+i, len(m)))
+					off += i + 1
+				}
+			}
+		}
+		sp := "-"
+		if len(spans) > 0 {
+			sp = strings.Join(spans, ",")
+		}
+		c.Case("codectx_hist", hx(in[0]), hx(in[1]), hx(in[2]), hx(in[3]), r.outcome, hx(r.out), sp)
+	})
 	reg("jsurl", 2, func(c *caseWriter, in []string) {
 		r := runTemplate(in[0], "", dataFromWire(in[1]), false)
 		c.Case("jsurl", hx(in[0]), hx(in[1]), r.outcome, hx(r.out))
@@ -337,6 +360,12 @@ func runC02(c *caseWriter) (string, bool, map[string]int) {
 		`<script src="/js/&#46;{{.}}"></script>`, `<script src="/js&#47;{{.}}"></script>`, `<script src="https:&#47;&#47;{{.}}"></script>`, `<script src="/&#47;{{.}}"></script>`, `<script src="/&sol;{{.}}"></script>`, `<script src="/&bsol;{{.}}"></script>`, `<script src="/&Tab;/{{.}}"></script>`, `<script src="/&NewLine;/{{.}}"></script>`,
 		`<iframe src="/&#9;/{{.}}"></iframe>`, `<embed src="/x/{{.}}">`, `<object data="/x/{{.}}"></object>`, `<base href="/x/{{.}}">`, `<frame src="/x/{{.}}">`,
 	}
+	// look-alikes of the end tag of a special element inside its body, then an action that is still inside it
+	for _, el := range []string{"script", "style", "textarea", "title"} {
+		for _, ch := range []string{"-", ".", "_", ":", "x", "1", "\u00a0", "\x00", "/", "\v"} {
+			staticCode = append(staticCode, "<"+el+">var re = \"</"+el+ch+">\"; {{.}}</"+el+">", "<"+el+">a</"+strings.ToUpper(el)+ch+" {{.}}</"+el+">")
+		}
+	}
 	for _, t := range staticCode {
 		for i, l := range leaves {
 			if !thorough && i >= 4 {
@@ -412,6 +441,24 @@ func runC02(c *caseWriter) (string, bool, map[string]int) {
 		}
 		js(t, c02Str("javascript:alert(1)"))
 		js(t, c02Str("JaVaScRiPt:alert(1)//"))
+	}
+
+	// ------------------------------------------------------------ (5b) histories on one set: a member that is refused (it
+	// ends in a non-text context, or a later action is refused) executed first, then a healthy member
+	// that shares a helper with it: the helper's sanitizers must be in place
+	histSets := []string{
+		`{{define "widget"}}<script>{{.J}}</script><a href="{{.A}}">x</a>{{end}}{{define "partial"}}{{template "widget" .}}<div title="{{.B}}{{end}}{{define "page"}}<p>{{template "widget" .}}</p>{{end}}m`,
+		`{{define "h"}}<b>{{.A}}</b>{{end}}{{define "bad"}}{{template "h" .}}<a href="{{end}}{{define "good"}}<i>{{template "h" .}}</i>{{end}}m`,
+		`{{define "h"}}<a href="{{.A}}">l</a>{{end}}{{define "bad"}}{{template "h" .}}<div onclick="{{.B}}">{{end}}{{define "good"}}<p>{{template "h" .}}</p>{{end}}m`,
+		`{{define "h"}}{{.A}}{{end}}{{define "bad"}}<script>{{template "h" .}}{{end}}{{define "good"}}<script>{{template "h" .}}</script>{{end}}{{define "text"}}<p>{{template "h" .}}</p>{{end}}m`,
+		`{{define "h"}}<img src="{{.A}}">{{end}}{{define "bad"}}{{if .B}}<b>{{else}}<i title="{{end}}{{template "h" .}}{{end}}{{define "good"}}{{template "h" .}}!{{end}}m`,
+	}
+	for _, t := range histSets {
+		for _, seq := range []string{"bad\x01good", "partial\x01page", "bad\x01bad\x01good", "good\x01bad\x01good", "partial\x01partial\x01page", "bad\x01text", "bad\x01good\x01text", "page\x01partial\x01page"} {
+			for _, d := range []string{mkA, "javascript:" + mkA, "//" + mkA + "/x", "\"><script>" + mkA + "</script>"} {
+				emit(c, "codectx_hist", t, seq, c02Map("A", d, "B", mkB, "J", mkC), c02Markers)
+			}
+		}
 	}
 
 	// ------------------------------------------------------------ (6) javascript: URLs, split at every position
@@ -572,6 +619,16 @@ func runC02(c *caseWriter) (string, bool, map[string]int) {
 		`{{with .C}}<script{{else}}<div{{end}}{{with .D}} {{end}}>{{$.X}}</script>`,
 		`{{range .L}}<script{{else}}<div{{end}}{{if .D}} {{end}}>{{.X}}</script>`,
 		`<div {{if .C}}title="a"{{else}}onclick="a"{{end}} {{if .D}}id{{else}}lang{{end}}="{{.X}}">`,
+		// a conditional element name, then one or more COMPLETE static attributes, then the action
+		`{{if .C}}<script{{else}}<span{{end}} class="c">{{.X}}</script>`,
+		`{{if .C}}<script{{else}}<img{{end}} id="main" src="{{.X}}">`,
+		`{{if .C}}<script{{else}}<img{{end}} id=main defer src="{{.X}}">`,
+		`{{if .C}}<link{{else}}<a{{end}} rel="stylesheet" href="{{.X}}">`,
+		`{{if .C}}<iframe{{else}}<img{{end}} title='t' class="c" src='{{.X}}'>`,
+		`{{if .C}}<style{{else}}<p{{end}} media="all" title="t">{{.X}}</style>`,
+		`{{if .C}}<a{{else}}<base{{end}} target="_blank" href="{{.X}}">`,
+		`{{if .C}}<script{{else}}<span{{end}} class="c" {{if .D}}id="i"{{end}}>{{.X}}</script>`,
+		`{{with .C}}<script{{else}}<span{{end}} class="c">{{$.X}}</script>`,
 	}
 	for _, t := range condNames {
 		for _, cv := range []string{"", "1"} {
